@@ -204,6 +204,11 @@ fn cmd_conc(args: &[String]) {
                 let (txt, n) = history_coq(&prog, &r);
                 coq.push_str(&txt);
                 coq_hist += n;
+                if si == 0 {
+                    let (txt, n) = quiescent_coq(&r);
+                    coq.push_str(&txt);
+                    coq_hist += n;
+                }
             }
             fails.extend(check_quiescent(&prog, &r));
             fails.extend(check_resize_events(&r));
